@@ -44,6 +44,7 @@ var (
 	ErrUnexpected           = errors.New("this is a unexpected error")
 	ErrInvalidAutogenTx     = errors.New("found invalid autogen-tx")
 	ErrUTXODuplicated       = errors.New("found duplicated utxo in same tx")
+	ErrParentUnconfirmed    = errors.New("block confirms a transaction before the unconfirmed transaction it depends on")
 	ErrRWSetInvalid         = errors.New("RWSet of transaction invalid")
 	ErrACLNotEnough         = errors.New("ACL not enough")
 	ErrInvalidSignature     = errors.New("the signature is invalid or not match the address")
@@ -1285,6 +1286,20 @@ func (t *State) recoverUnconfirmedTx(undoList []*pb.Transaction) {
 
 //执行一个block的时候, 处理本地未确认交易
 //返回：被确认的txid集合、err
+// refTxidsOf returns the ids of the transactions whose outputs tx spends or whose writes it read
+func refTxidsOf(tx *pb.Transaction) []string {
+	refs := []string{}
+	for _, txInput := range tx.TxInputs {
+		refs = append(refs, string(txInput.RefTxid))
+	}
+	for _, txInputExt := range tx.TxInputsExt {
+		if len(txInputExt.RefTxid) > 0 {
+			refs = append(refs, string(txInputExt.RefTxid))
+		}
+	}
+	return refs
+}
+
 func (t *State) processUnconfirmTxs(block *pb.InternalBlock, batch kvdb.Batch, needRepost bool) (map[string]bool, map[string]bool, error) {
 	if !bytes.Equal(block.PreHash, t.latestBlockid) {
 		t.log.Warn("play failed", "block.PreHash", utils.F(block.PreHash),
@@ -1292,10 +1307,12 @@ func (t *State) processUnconfirmTxs(block *pb.InternalBlock, batch kvdb.Batch, n
 		return nil, nil, ErrPreBlockMissMatch
 	}
 	txidsInBlock := map[string]bool{}    // block里面所有的txid
+	txPosInBlock := map[string]int{}     // txid在block里面的位置
 	UTXOKeysInBlock := map[string]bool{} // block里面所有的交易需要用掉的utxo
 	keysVersionInBlock := map[string]string{}
-	for _, tx := range block.Transactions {
+	for pos, tx := range block.Transactions {
 		txidsInBlock[string(tx.Txid)] = true
+		txPosInBlock[string(tx.Txid)] = pos
 		for _, txInput := range tx.TxInputs {
 			utxoKey := utxo.GenUtxoKey(txInput.FromAddr, txInput.RefTxid, txInput.RefOffset)
 			if UTXOKeysInBlock[utxoKey] { //检查块内的utxo双花情况
@@ -1317,6 +1334,20 @@ func (t *State) processUnconfirmTxs(block *pb.InternalBlock, batch kvdb.Batch, n
 		return nil, nil, loadErr
 	}
 	t.log.Info("unconfirm table size", "unconfirmTxCount", t.tx.UnconfirmTxAmount)
+	// 区块里的交易如果依赖本地未确认交易(花它的输出, 或读到它写的版本), 那笔未确认交易必须排在前面一起被确认。
+	// 否则被引用的输出并不在链上: 其他节点无法执行这个区块, 本地回滚那笔未确认交易时还会把已经花掉的输出恢复出来
+	for pos, tx := range block.Transactions {
+		for _, refTxid := range refTxidsOf(tx) {
+			if _, pending := unconfirmTxMap[refTxid]; !pending {
+				continue
+			}
+			if refPos, inBlock := txPosInBlock[refTxid]; !inBlock || refPos >= pos {
+				t.log.Warn("block tx depends on an unconfirmed tx that is not confirmed before it", "txid", utils.F(tx.Txid),
+					"refTxid", utils.F([]byte(refTxid)))
+				return nil, nil, ErrParentUnconfirmed
+			}
+		}
+	}
 	undoDone := map[string]bool{}
 	unconfirmToConfirm := map[string]bool{}
 	for txid, unconfirmTx := range unconfirmTxMap {
